@@ -35,7 +35,7 @@ def export_family(name, tier, module="Gen_Families"):
                 f.write('INIT Init\nNEXT Next\nCHECK_DEADLOCK FALSE\nCONSTANTS FAMILY = "%s"\nTIER = %d\n' % (name, tier))
             out = os.path.join(wd, "out.ndjson")
             rc, o = tlc.run_tlc(module, cfgf, wd, env={"OUT_FILE": out}, workers=1,
-                                timeout=tlc.TLC_TIMEOUT_S, heap="4g")
+                                timeout=tlc.TLC_TIMEOUT_S, heap="6g", quickjit=(tier == 1))
             if rc != 0 or not os.path.exists(out):
                 raise tlc.MachineryError("family export %s/%d failed:\n%s" % (name, tier, o[-2000:]))
             os.replace(out, path)
